@@ -3,12 +3,15 @@
 import json, os, subprocess
 V = os.path.dirname(os.path.dirname(os.path.abspath(__file__)))
 
-CLAIMED = {
- "C01": dict(
-  text="Lean theorems about the machine model and the definitional semantics (budget monotonicity; the simulation theorem is being extended construct by construct, see DESIGN §5 C01) plus a deciding correspondence: the real eval (value, printed output, error kind) is compared with the definitional evaluator Spec.evalProgram on bounded-exhaustive and type-directed random programs, and with the machine model (steps, stack at Halt, collections) as a diagnostic tier.",
-  note="Trusted: Lean kernel; hand-written model tied to the code by the correspondence only; harness/driver I/O; Rust std. The full simulation theorem is partial (see DESIGN).",
-  technique="Lean 4 proof (model + definitional semantics) + differential correspondence eval vs Spec.eval"),
-}
+import sys, importlib
+sys.path.insert(0, V)
+CLAIMED = {}
+for i in range(1, 18):
+    pid = "C%02d" % i
+    if os.path.exists(os.path.join(V, "checklib", "props", pid + ".py")):
+        m = importlib.import_module("checklib.props." + pid)
+        if hasattr(m, "LEVEL_TEXT"):
+            CLAIMED[pid] = dict(text=m.LEVEL_TEXT, note=m.LEVEL_NOTE, technique=m.TECHNIQUE)
 
 ALL = ["C%02d" % i for i in range(1, 18)]
 
